@@ -1,7 +1,10 @@
 (** C08 — wire codecs: total, consistent with length predictions, round-trip.
     Only statements live here; each is closed by [exact] of a lemma proved elsewhere. *)
-From Coq Require Import List ZArith.
-From V Require Import Gen.Params Wire.Varint Wire.VarintProofs.
+From Coq Require Import List ZArith Bool Lia.
+From V Require Import Gen.Params Lib.Hex Wire.Varint Wire.VarintProofs.
+From V Require Import Wire.FramesBase Wire.FramesBaseProofs Wire.FramesCtl Wire.FramesCtlProofs Wire.FramesStream
+  Wire.FramesStreamProofs Wire.FramesAck Wire.FramesAckProofs Wire.Frames Wire.FramesProofs
+  Wire.FramesConsumedProofs Wire.FramesReencodeProofs.
 Import ListNotations.
 Open Scope Z_scope.
 
@@ -16,3 +19,665 @@ Theorem C08_varint_length : forall v, 0 <= v <= maxVarInt8 ->
   Z.of_nat (length (vappend v)) = vlen v.
 Proof. exact vappend_length. Qed.
 Print Assumptions C08_varint_length.
+
+(* ==== frames ==== *)
+
+(** Every well-formed frame of every kind (22 kinds), encoded by Append, is parsed back by the
+    frame parser (ParseType + dispatch) at every encryption level that allows its type and with
+    every parser configuration that knows its type: the value comes back (ACK: first 64 ranges,
+    delay rescaled by the receiver's exponent; ACK_FREQUENCY: whole microseconds), the consumed
+    count is exactly the encoded length, and the bytes that follow are untouched.  STREAM and
+    DATAGRAM frames without a length field must be last. *)
+Theorem C08_frame_roundtrip : forall c lvl f enc rest,
+  wf_frame f -> append_frame f = Some enc ->
+  type_valid c (frame_type f) = true -> type_allowed lvl (frame_type f) = true ->
+  (self_delimiting f = false -> rest = []) ->
+  parse_next c lvl (enc ++ rest) = Ok (norm c lvl f, zlen enc, rest).
+Proof. exact frame_roundtrip. Qed.
+Print Assumptions C08_frame_roundtrip.
+
+(** Length() is the encoded length, for every frame kind. *)
+Theorem C08_frame_length : forall f enc,
+  wf_frame f -> append_frame f = Some enc -> zlen enc = length_frame f.
+Proof. exact frame_length. Qed.
+Print Assumptions C08_frame_length.
+
+(** non-vacuity: a STREAM frame, an ACK with two ranges and ECN, a NEW_CONNECTION_ID *)
+Example C08_frame_roundtrip_nonvacuous :
+  wf_frame (FStream 4 1000 [1; 2; 3] true true) /\
+  type_allowed 4 (frame_type (FStream 4 1000 [1; 2; 3] true true)) = true /\
+  append_frame (FStream 4 1000 [1; 2; 3] true true) = Some [15; 4; 67; 232; 3; 1; 2; 3] /\
+  wf_frame (FAck [(90, 100); (10, 20)] 16000 1 0 0) /\
+  type_allowed 1 (frame_type (FAck [(90, 100); (10, 20)] 16000 1 0 0)) = true /\
+  append_frame (FAck [(90, 100); (10, 20)] 16000 1 0 0) = Some [3; 64; 100; 2; 1; 10; 64; 68; 10; 1; 0; 0] /\
+  wf_frame (FNewConnectionID 7 3 [1; 2; 3; 4] (repeat 9 16)) /\
+  type_valid (Cfg false false false 3) (frame_type (FNewConnectionID 7 3 [1; 2; 3; 4] (repeat 9 16))) = true.
+Proof. vm_compute. repeat split; try discriminate; auto. Qed.
+Print Assumptions C08_frame_roundtrip_nonvacuous.
+
+(** PADDING before a frame is skipped and counted in the consumed length. *)
+Theorem C08_frame_padding : forall c lvl k b f n rest,
+  parse_next c lvl b = Ok (f, n, rest) ->
+  parse_next c lvl (repeat 0 k ++ b) = Ok (f, n + Z.of_nat k, rest).
+Proof. exact parse_next_padding. Qed.
+Print Assumptions C08_frame_padding.
+
+(** The ACK delay: with the sender's exponent (3 = the default every level but 1-RTT uses) the
+    delay comes back rounded down to a multiple of 8 microseconds; never larger, less than 8 µs smaller. *)
+Theorem C08_ack_delay_quantised : forall d, 0 <= d <= maxInt64 ->
+  ack_delay_ns (encode_ack_delay d) W_AckDelayExponent = d - d mod 8000.
+Proof. exact ack_delay_quantised. Qed.
+Print Assumptions C08_ack_delay_quantised.
+
+(** Ranges a sender holds (descending, disjoint, non-adjacent) pass the receiver's validateAckRanges. *)
+Theorem C08_ack_ranges_valid : forall ranges, wf_ranges ranges -> validate_ack_ranges ranges = true.
+Proof. exact wf_ranges_validate. Qed.
+Print Assumptions C08_ack_ranges_valid.
+
+(** MaxDataLen: any amount of STREAM data up to MaxDataLen(maxSize) yields a frame of at most
+    maxSize bytes, for EVERY maxSize a varint can express (length fields of 1, 2, 4 and 8 bytes) ... *)
+Theorem C08_maxdatalen_stream : forall sid off dlp maxSize data,
+  vwf sid -> vwf off -> maxSize <= maxVarInt8 ->
+  zlen data <= maxdatalen_stream sid off dlp maxSize ->
+  0 < maxdatalen_stream sid off dlp maxSize ->
+  length_stream sid off data dlp <= maxSize.
+Proof. exact maxdatalen_stream_fits. Qed.
+Print Assumptions C08_maxdatalen_stream.
+
+(** ... and one byte more would not fit. *)
+Theorem C08_maxdatalen_stream_maximal : forall sid off dlp maxSize data,
+  0 <= maxSize <= maxVarInt8 -> 0 < stream_hdr_len sid off -> vwf (zlen data) ->
+  maxdatalen_stream sid off dlp maxSize < zlen data ->
+  maxSize < length_stream sid off data dlp.
+Proof. exact maxdatalen_stream_maximal. Qed.
+Print Assumptions C08_maxdatalen_stream_maximal.
+
+Theorem C08_maxdatalen_crypto : forall off maxSize data,
+  vwf off -> maxSize <= maxVarInt8 -> zlen data <= maxdatalen_crypto off maxSize ->
+  0 < maxdatalen_crypto off maxSize -> length_crypto off data <= maxSize.
+Proof. exact maxdatalen_crypto_fits. Qed.
+Print Assumptions C08_maxdatalen_crypto.
+
+Theorem C08_maxdatalen_crypto_maximal : forall off maxSize data,
+  vwf off -> 0 <= maxSize <= maxVarInt8 -> vwf (zlen data) ->
+  maxdatalen_crypto off maxSize < zlen data -> maxSize < length_crypto off data.
+Proof. exact maxdatalen_crypto_maximal. Qed.
+Print Assumptions C08_maxdatalen_crypto_maximal.
+
+Theorem C08_maxdatalen_datagram : forall dlp maxSize data,
+  maxSize <= maxVarInt8 -> zlen data <= maxdatalen_datagram dlp maxSize ->
+  0 < maxdatalen_datagram dlp maxSize -> length_datagram dlp data <= maxSize.
+Proof. exact maxdatalen_datagram_fits. Qed.
+Print Assumptions C08_maxdatalen_datagram.
+
+(** Regression (fixed finding frames/maxdatalen-overshoot-large): MaxDataLen(16390) of a CRYPTO frame
+    at offset 0 used to allow 16386 bytes (a 16392-byte frame); it now allows 16384 bytes and the
+    frame has exactly 16390 bytes. *)
+Example C08_maxdatalen_large_regression :
+  maxdatalen_crypto 0 16390 = 16384 /\
+  (forall data, zlen data = 16384 -> length_crypto 0 data = 16390).
+Proof. exact maxdatalen_crypto_large_regression. Qed.
+Print Assumptions C08_maxdatalen_large_regression.
+
+(** MaybeSplitOffFrame (STREAM): nothing changes when the frame fits or nothing fits; otherwise
+    the two frames carry exactly the original byte range at the right offsets, FIN stays on the
+    second, and the first fits into maxSize with at least one byte of data. *)
+Theorem C08_split_stream : forall sid off data fin dlp maxSize,
+  wf_stream sid off data fin -> 0 <= maxSize <= maxVarInt8 ->
+  match split_stream sid off data fin dlp maxSize with
+  | (None, false, f') => f' = FStream sid off data fin dlp /\ length_stream sid off data dlp <= maxSize
+  | (None, true, f') => f' = FStream sid off data fin dlp /\ maxSize < length_stream sid off data dlp
+                        /\ maxdatalen_stream sid off dlp maxSize = 0
+  | (Some (FStream s1 o1 d1 fin1 l1), true, FStream s2 o2 d2 fin2 l2) =>
+      s1 = sid /\ s2 = sid /\ o1 = off /\ o2 = off + zlen d1 /\ d1 ++ d2 = data
+      /\ fin1 = false /\ fin2 = fin /\ l1 = dlp /\ l2 = dlp
+      /\ 0 < zlen d1 < zlen data /\ length_stream sid off d1 dlp <= maxSize
+  | _ => False
+  end.
+Proof. exact split_stream_spec. Qed.
+Print Assumptions C08_split_stream.
+
+Theorem C08_split_crypto : forall off data maxSize,
+  wf_crypto off data -> 0 <= maxSize <= maxVarInt8 ->
+  match split_crypto off data maxSize with
+  | (None, false, f') => f' = FCrypto off data /\ length_crypto off data <= maxSize
+  | (None, true, f') => f' = FCrypto off data /\ maxSize < length_crypto off data /\ maxdatalen_crypto off maxSize = 0
+  | (Some (FCrypto o1 d1), true, FCrypto o2 d2) =>
+      o1 = off /\ o2 = off + zlen d1 /\ d1 ++ d2 = data /\ 0 < zlen d1 < zlen data
+      /\ length_crypto off d1 <= maxSize
+  | _ => False
+  end.
+Proof. exact split_crypto_spec. Qed.
+Print Assumptions C08_split_crypto.
+
+(** Rejections.  Stream counts above 2^60 (MAX_STREAMS, STREAMS_BLOCKED): *)
+Theorem C08_reject_stream_count : forall uni n rest,
+  vwf n -> 2 ^ 60 < n ->
+  parse_max_streams uni (vappend n ++ rest) = Err 13 0 /\ parse_streams_blocked uni (vappend n ++ rest) = Err 13 0.
+Proof.
+  intros uni n rest V L. rewrite <- max_stream_count_is_2_60 in L.
+  split; [exact (reject_stream_count_max_streams uni n rest V L) | exact (reject_stream_count_streams_blocked uni n rest V L)].
+Qed.
+Print Assumptions C08_reject_stream_count.
+
+(** RESET_STREAM_AT with a reliable size above the final size: *)
+Theorem C08_reject_reliable_size : forall s e fs rs rest,
+  vwf s -> vwf e -> vwf fs -> vwf rs -> fs < rs ->
+  parse_reset_stream true (vappend s ++ vappend e ++ vappend fs ++ vappend rs ++ rest) = Err 14 0.
+Proof. exact reject_reliable_size. Qed.
+Print Assumptions C08_reject_reliable_size.
+
+(** NEW_CONNECTION_ID with Retire Prior To above the sequence number: *)
+Theorem C08_reject_retire_prior_to : forall s r rest,
+  vwf s -> vwf r -> s < r -> parse_new_cid (vappend s ++ vappend r ++ rest) = Err 15 0.
+Proof. exact reject_retire_prior_to. Qed.
+Print Assumptions C08_reject_retire_prior_to.
+
+(** NEW_CONNECTION_ID with a zero-length connection ID or one longer than 20 bytes: *)
+Theorem C08_reject_cid_len : forall s r l rest,
+  vwf s -> vwf r -> r <= s -> l = 0 \/ 20 < l ->
+  exists e, (e = 16 \/ e = 17) /\ parse_new_cid (vappend s ++ vappend r ++ l :: rest) = Err e 0.
+Proof. intros s r l rest Vs Vr Hle Hl. rewrite <- max_conn_id_len_is_20 in Hl. exact (reject_cid_len s r l rest Vs Vr Hle Hl). Qed.
+Print Assumptions C08_reject_cid_len.
+
+(** STREAM data that would end beyond offset 2^62-1: *)
+Theorem C08_reject_stream_overflow : forall sid off data fin rest,
+  vwf sid -> vwf off -> zlen data <= W_MaxPacketBufferSize -> W_MaxByteCount < off + zlen data ->
+  parse_stream (stream_type off fin true) (body_stream sid off data true ++ rest) = Err 12 0.
+Proof. exact reject_stream_overflow. Qed.
+Print Assumptions C08_reject_stream_overflow.
+
+(** ACK whose first range is longer than the largest acknowledged, or whose next range would
+    start below zero (gap or length too large): *)
+Theorem C08_reject_ack_first_range : forall ecn exp la d n ab rest,
+  vwf la -> vwf d -> vwf n -> vwf ab -> la < ab ->
+  parse_ack ecn exp (vappend la ++ vappend d ++ vappend n ++ vappend ab ++ rest) = Err 10 0.
+Proof. exact reject_ack_first_range. Qed.
+Print Assumptions C08_reject_ack_first_range.
+
+Theorem C08_reject_ack_gap : forall ecn exp la d n ab gap rest,
+  vwf la -> vwf d -> vwf n -> vwf ab -> vwf gap -> ab <= la -> 1 <= n -> la - ab < gap + 2 ->
+  parse_ack ecn exp (vappend la ++ vappend d ++ vappend n ++ vappend ab ++ vappend gap ++ rest) = Err 11 0.
+Proof. exact reject_ack_gap. Qed.
+Print Assumptions C08_reject_ack_gap.
+
+Theorem C08_reject_ack_range_len : forall ecn exp la d n ab gap len rest,
+  vwf la -> vwf d -> vwf n -> vwf ab -> vwf gap -> vwf len -> ab <= la -> 1 <= n -> gap + 2 <= la - ab ->
+  la - ab - gap - 2 < len ->
+  parse_ack ecn exp (vappend la ++ vappend d ++ vappend n ++ vappend ab ++ vappend gap ++ vappend len ++ rest) = Err 11 0.
+Proof. exact reject_ack_range_len. Qed.
+Print Assumptions C08_reject_ack_range_len.
+
+(** A frame type that is known but not allowed at the encryption level is refused before its
+    body is looked at; an unknown type (or an extension that was not negotiated) likewise. *)
+Theorem C08_reject_not_allowed : forall c lvl t body,
+  vwf t -> t <> 0 -> type_valid c t = true -> type_allowed lvl t = false ->
+  parse_next c lvl (vappend t ++ body) = Err 5 (vlen t).
+Proof. exact reject_not_allowed. Qed.
+Print Assumptions C08_reject_not_allowed.
+
+Theorem C08_reject_unknown_type : forall c lvl t body,
+  vwf t -> t <> 0 -> type_valid c t = false ->
+  parse_next c lvl (vappend t ++ body) = Err 4 (vlen t).
+Proof. exact reject_unknown_type. Qed.
+Print Assumptions C08_reject_unknown_type.
+
+(** The per-level allow-list (generated from isAllowedAtEncLevel) is exactly table 3 of RFC 9000
+    (section 12.4), except that CONNECTION_CLOSE 0x1c is refused in 0-RTT (stricter than the table);
+    Initial/Handshake allow exactly PING, ACK, CRYPTO and CONNECTION_CLOSE(0x1c). *)
+Theorem C08_allow_list_rfc_table3 :
+  forallb (fun lvl => forallb (fun t =>
+     Bool.eqb (type_allowed lvl t) (rfc9000_allowed lvl t && negb ((lvl =? 3) && (t =? 28)))) all_types) [1; 2; 3; 4] = true.
+Proof. exact allow_list_is_rfc_table3. Qed.
+Print Assumptions C08_allow_list_rfc_table3.
+
+Theorem C08_allow_list_initial_handshake :
+  forallb (fun lvl => forallb (fun t =>
+     Bool.eqb (type_allowed lvl t) ((t =? 1) || (t =? 2) || (t =? 3) || (t =? 6) || (t =? 28))) all_types) [1; 2] = true.
+Proof. exact allow_list_initial_handshake. Qed.
+Print Assumptions C08_allow_list_initial_handshake.
+
+(** Regression (fixed finding frames/level/accepted-0x1e-at-3): HANDSHAKE_DONE (0x1e) in a 0-RTT
+    packet is refused by ParseType, whatever follows and whatever the parser configuration. *)
+Example C08_handshake_done_0rtt_rejected : forall c body,
+  type_allowed 3 FT_HandshakeDone = false /\ parse_next c 3 (FT_HandshakeDone :: body) = Err 5 1.
+Proof. exact handshake_done_0rtt_rejected. Qed.
+Print Assumptions C08_handshake_done_0rtt_rejected.
+
+(** Claim (a) on the model: a successful parse returns a genuine suffix of its input, reports
+    exactly the number of bytes in front of it, consumes at least one byte and never more than
+    the input has. *)
+Theorem C08_frame_consumed : forall c lvl b f n rest,
+  parse_next c lvl b = Ok (f, n, rest) ->
+  suffix_of rest b /\ n = zlen b - zlen rest /\ 0 < n <= zlen b.
+Proof. exact parse_next_consumed. Qed.
+Print Assumptions C08_frame_consumed.
+
+(** Whatever the parser accepts from a byte string (at one of the four levels) is a well-formed
+    value — every range rule of wf_frame holds for it — and the type Append will write for it is
+    known to the parser and allowed at that level. *)
+Theorem C08_frame_parsed_wf : forall c lvl b f n rest,
+  bytes b -> zlen b <= maxVarInt8 -> 1 <= lvl <= 4 ->
+  parse_next c lvl b = Ok (f, n, rest) ->
+  (forall enc, append_frame f = Some enc -> wf_frame f) /\
+  type_valid c (frame_type f) = true /\ type_allowed lvl (frame_type f) = true.
+Proof. exact parse_next_wf. Qed.
+Print Assumptions C08_frame_parsed_wf.
+
+(** Claim (c): parse -> append -> parse.  The re-encoding of anything that parsed is accepted
+    again, consumed completely, and yields the normalised value ... *)
+Theorem C08_frame_reencode : forall c lvl b f n rest enc,
+  bytes b -> zlen b <= maxVarInt8 -> 1 <= lvl <= 4 ->
+  parse_next c lvl b = Ok (f, n, rest) -> append_frame f = Some enc ->
+  parse_next c lvl enc = Ok (norm c lvl f, zlen enc, []).
+Proof. exact parse_reencode. Qed.
+Print Assumptions C08_frame_reencode.
+
+(** ... which is the value itself for every kind but ACK / ACK_FREQUENCY (whose delays are quantised). *)
+Theorem C08_frame_reencode_fixpoint : forall c lvl b f n rest enc,
+  bytes b -> zlen b <= maxVarInt8 -> 1 <= lvl <= 4 ->
+  parse_next c lvl b = Ok (f, n, rest) -> append_frame f = Some enc ->
+  (match f with FAck _ _ _ _ _ | FAckFrequency _ _ _ _ => False | _ => True end) ->
+  parse_next c lvl enc = Ok (f, zlen enc, []).
+Proof. exact parse_reencode_fixpoint. Qed.
+Print Assumptions C08_frame_reencode_fixpoint.
+
+Example C08_frame_reencode_nonvacuous :
+  bytes [0; 0; 14; 4; 67; 232; 2; 7; 7; 1] /\
+  parse_next (Cfg false false false 3) 4 [0; 0; 14; 4; 67; 232; 2; 7; 7; 1] = Ok (FStream 4 1000 [7; 7] false true, 9, [1]) /\
+  append_frame (FStream 4 1000 [7; 7] false true) = Some [14; 4; 67; 232; 2; 7; 7].
+Proof. split; [repeat constructor; unfold is_byte; lia | split; reflexivity]. Qed.
+Print Assumptions C08_frame_reencode_nonvacuous.
+
+(** AckFrame.Truncate(maxSize): what is left is a non-empty prefix of at most 64 ranges whose
+    encoding fits into maxSize, provided the frame with the first range alone fits. *)
+Theorem C08_ack_truncate : forall ranges delay e0 e1 ce maxSize,
+  wf_ranges ranges ->
+  length_ack (firstn 1 ranges) delay e0 e1 ce <= maxSize ->
+  let t := truncate_ack ranges delay e0 e1 ce maxSize in
+  t <> [] /\ (exists rest, ranges = t ++ rest) /\ (length t <= 64)%nat /\ length_ack t delay e0 e1 ce <= maxSize.
+Proof. exact truncate_ack_fits. Qed.
+Print Assumptions C08_ack_truncate.
+
+(* ==== end frames ==== *)
+(* ==== tparams ==== *)
+(** Transport parameters (internal/wire/transport_parameters.go), model Wire/TParams.v.
+    [enc_params ps] is a list of well-delimited (id, value) parameters, [params_wf] says that
+    ids and lengths are encodable varints, [varint_body body v] that [body] is exactly one varint
+    of value [v] (minimal or padded), [is_err r] that [r] is an error of whatever class. *)
+From V Require Import Lib.Hex Wire.FramesBase Wire.TParams Wire.TParamsProofs Wire.TParamsRoundtrip.
+
+(** The parameter ids are the ones of RFC 9000 section 18.2, RFC 9221, reliable-stream-reset
+    and ack-frequency drafts (an edited id breaks this proof). *)
+Theorem C08_tparams_ids : known_ids =
+  [0; 1; 2; 3; 4; 5; 6; 7; 8; 9; 10; 11; 12; 13; 14; 15; 16; 32; 6745883625174385; 4278509083].
+Proof. exact (eq_refl known_ids). Qed.
+Print Assumptions C08_tparams_ids.
+
+(** The greased parameter Marshal sends first (id 27 + 31 * random byte) is never a known one. *)
+Theorem C08_tparams_grease_unknown : forall k, 0 <= k < 256 -> ~ In (27 + 31 * k) known_ids.
+Proof. exact grease_not_known. Qed.
+Print Assumptions C08_tparams_grease_unknown.
+
+(** Unmarshal (Marshal p) = norm p for both perspectives and every 18 random bytes: durations
+    quantised to ms / us, max_idle_timeout raised to 5 s, max_udp_payload_size 0 -> 2^62-1,
+    unusable preferred addresses dropped, server-only parameters absent for the client. *)
+Theorem C08_tparams_roundtrip : forall pers rnd p,
+  length rnd = 18%nat -> Forall is_byte rnd -> tp_wf p ->
+  unmarshal pers false (marshal pers rnd p) = Ok (tp_norm pers p).
+Proof. exact tparams_roundtrip. Qed.
+Print Assumptions C08_tparams_roundtrip.
+
+Theorem C08_tparams_ticket_roundtrip : forall p,
+  tp_wf_ticket p -> unmarshal_ticket (marshal_ticket p) = Ok (tp_norm_ticket p).
+Proof. exact ticket_roundtrip. Qed.
+Print Assumptions C08_tparams_ticket_roundtrip.
+
+(** A parameter list in which an id occurs twice is rejected (known, unknown or greased id,
+    equal or different values, any distance), and appending a second copy of a parameter to any
+    list makes it rejected; conversely what is accepted has pairwise distinct ids. *)
+Theorem C08_reject_duplicate_tparam : forall pers ticket ps l1 x l2 l3,
+  params_wf ps -> map fst ps = l1 ++ x :: l2 ++ x :: l3 ->
+  is_err (unmarshal pers ticket (enc_params ps)).
+Proof. exact reject_duplicate. Qed.
+Print Assumptions C08_reject_duplicate_tparam.
+
+Theorem C08_reject_duplicate_tparam_appended : forall pers ticket ps id body,
+  params_wf ps -> param_wf (id, body) -> In id (map fst ps) ->
+  is_err (unmarshal pers ticket (enc_params (ps ++ [(id, body)]))).
+Proof. exact reject_duplicate_appended. Qed.
+Print Assumptions C08_reject_duplicate_tparam_appended.
+
+Theorem C08_accepted_tparams_distinct : forall pers ticket ps p,
+  params_wf ps -> unmarshal pers ticket (enc_params ps) = Ok p -> NoDup (map fst ps).
+Proof. exact accepted_nodup. Qed.
+Print Assumptions C08_accepted_tparams_distinct.
+
+(** Range rules.  First conjunct: rejected wherever the parameter stands among well-delimited
+    parameters, whatever follows; second: the error class when it comes first. *)
+Theorem C08_reject_ack_delay_exponent : forall pers ticket ps body v rest,
+  params_wf ps -> varint_body body v -> 20 < v ->
+  is_err (unmarshal pers ticket (enc_params ps ++ enc_param TP_ID_ade body ++ rest)) /\
+  unmarshal pers ticket (enc_param TP_ID_ade body ++ rest) = Err E_TP_ADE 0.
+Proof. exact reject_ack_delay_exponent. Qed.
+Print Assumptions C08_reject_ack_delay_exponent.
+
+Theorem C08_reject_max_ack_delay : forall pers ticket ps body v rest,
+  params_wf ps -> varint_body body v -> 2 ^ 14 <= v ->
+  is_err (unmarshal pers ticket (enc_params ps ++ enc_param TP_ID_mad body ++ rest)) /\
+  unmarshal pers ticket (enc_param TP_ID_mad body ++ rest) = Err E_TP_MAD 0.
+Proof. exact reject_max_ack_delay_pow. Qed.
+Print Assumptions C08_reject_max_ack_delay.
+
+Theorem C08_reject_max_udp_payload_size : forall pers ticket ps body v rest,
+  params_wf ps -> varint_body body v -> v < 1200 ->
+  is_err (unmarshal pers ticket (enc_params ps ++ enc_param TP_ID_mups body ++ rest)) /\
+  unmarshal pers ticket (enc_param TP_ID_mups body ++ rest) = Err E_TP_MUPS 0.
+Proof. exact reject_max_udp_payload_size. Qed.
+Print Assumptions C08_reject_max_udp_payload_size.
+
+Theorem C08_reject_active_cid_limit : forall pers ticket ps body v rest,
+  params_wf ps -> varint_body body v -> v < 2 ->
+  is_err (unmarshal pers ticket (enc_params ps ++ enc_param TP_ID_acil body ++ rest)) /\
+  unmarshal pers ticket (enc_param TP_ID_acil body ++ rest) = Err E_TP_ACIL 0.
+Proof. exact reject_active_cid_limit. Qed.
+Print Assumptions C08_reject_active_cid_limit.
+
+Theorem C08_reject_tparam_stream_count : forall pers ticket ps body v rest,
+  params_wf ps -> varint_body body v -> 2 ^ 60 < v ->
+  (is_err (unmarshal pers ticket (enc_params ps ++ enc_param TP_ID_mbs body ++ rest)) /\
+   unmarshal pers ticket (enc_param TP_ID_mbs body ++ rest) = Err E_TP_STREAMS_BIDI 0) /\
+  (is_err (unmarshal pers ticket (enc_params ps ++ enc_param TP_ID_mus body ++ rest)) /\
+   unmarshal pers ticket (enc_param TP_ID_mus body ++ rest) = Err E_TP_STREAMS_UNI 0).
+Proof. exact reject_stream_count_pow. Qed.
+Print Assumptions C08_reject_tparam_stream_count.
+
+(** original_destination_connection_id, stateless_reset_token, preferred_address and
+    retry_source_connection_id sent by a client: rejected whatever length and value they have. *)
+Theorem C08_reject_client_server_only : forall ticket ps id body rest,
+  params_wf ps -> vwf (zlen body) -> In id [TP_ID_odcid; TP_ID_srt; TP_ID_pa; TP_ID_rscid] ->
+  is_err (unmarshal Client ticket (enc_params ps ++ enc_param id body ++ rest)) /\
+  exists c, unmarshal Client ticket (enc_param id body ++ rest) = Err c 0 /\
+            In (id, c) [(TP_ID_odcid, E_TP_CLIENT_ODCID); (TP_ID_srt, E_TP_CLIENT_SRT);
+                        (TP_ID_pa, E_TP_CLIENT_PA); (TP_ID_rscid, E_TP_CLIENT_RSCID)].
+Proof. exact reject_client_server_only. Qed.
+Print Assumptions C08_reject_client_server_only.
+
+(** A parameter list without initial_source_connection_id (either sender), or a server's list
+    without original_destination_connection_id, is rejected (not for session tickets). *)
+Theorem C08_reject_missing_iscid : forall pers ps,
+  params_wf ps -> ~ In TP_ID_iscid (map fst ps) -> is_err (unmarshal pers false (enc_params ps)).
+Proof. exact reject_missing_iscid. Qed.
+Print Assumptions C08_reject_missing_iscid.
+
+Theorem C08_reject_missing_odcid : forall ps,
+  params_wf ps -> ~ In TP_ID_odcid (map fst ps) -> is_err (unmarshal Server false (enc_params ps)).
+Proof. exact reject_missing_odcid. Qed.
+Print Assumptions C08_reject_missing_odcid.
+
+(** Connection-ID parameters longer than 20 bytes. *)
+Theorem C08_reject_cid_param_len : forall pers ticket ps id body rest,
+  params_wf ps -> vwf (zlen body) -> In id [TP_ID_odcid; TP_ID_iscid; TP_ID_rscid] -> 20 < zlen body ->
+  is_err (unmarshal pers ticket (enc_params ps ++ enc_param id body ++ rest)) /\
+  (pers = Server \/ id = TP_ID_iscid -> unmarshal pers ticket (enc_param id body ++ rest) = Err E_TP_CID_LEN 0).
+Proof. exact reject_cid_param_len. Qed.
+Print Assumptions C08_reject_cid_param_len.
+
+(** Non-vacuity: the hypotheses hold for concrete values, and the concrete instances evaluate to
+    what the theorems say. *)
+Example C08_tparams_wf_example :
+  tp_wf ex_tp /\ tp_wf_ticket ex_tp /\ length ex_rnd = 18%nat /\ Forall is_byte ex_rnd /\
+  unmarshal Server false (marshal Server ex_rnd ex_tp) = Ok (tp_norm Server ex_tp) /\
+  unmarshal Client false (marshal Client ex_rnd ex_tp) = Ok (tp_norm Client ex_tp) /\
+  tp_norm Server ex_tp <> tp_norm Client ex_tp /\
+  unmarshal_ticket (marshal_ticket ex_tp) = Ok (tp_norm_ticket ex_tp).
+Proof. exact ex_tp_roundtrip. Qed.
+Print Assumptions C08_tparams_wf_example.
+
+Example C08_tparams_params_example :
+  params_wf ex_ps_server /\
+  (exists p, unmarshal Server false (enc_params ex_ps_server) = Ok p /\ tp_imd p = 786432) /\
+  unmarshal Server false (enc_params (ex_ps_server ++ [(TP_ID_imd, vappend 5)])) = Err E_TP_DUP TP_ID_imd /\
+  unmarshal Server false (enc_params ((27, []) :: ex_ps_server)) = Err E_TP_DUP 27 /\
+  varint_body (vappend 21) 21 /\ varint_body [64; 21] 21.
+Proof. exact ex_params. Qed.
+Print Assumptions C08_tparams_params_example.
+
+Example C08_tparams_reject_example :
+  unmarshal Server false (enc_params ex_ps_server ++ enc_param TP_ID_ade [64; 21] ++ [255]) = Err E_TP_ADE 0 /\
+  unmarshal Server false (enc_params ex_ps_server ++ enc_param TP_ID_mad (vappend 16384)) = Err E_TP_MAD 0 /\
+  unmarshal Server false (enc_params ex_ps_server ++ enc_param TP_ID_mups (vappend 1199)) = Err E_TP_MUPS 0 /\
+  unmarshal Server false (enc_params ex_ps_server ++ enc_param TP_ID_acil (vappend 1)) = Err E_TP_ACIL 0 /\
+  unmarshal Server false (enc_params ex_ps_server ++ enc_param TP_ID_mbs (vappend (TP_MaxStreamCount + 1))) = Err E_TP_STREAMS_BIDI 0 /\
+  unmarshal Client false (enc_params [(TP_ID_iscid, [])] ++ enc_param TP_ID_srt (repeat 7 16)) = Err E_TP_CLIENT_SRT 0 /\
+  unmarshal Client false (enc_params [(TP_ID_iscid, repeat 1 21)]) = Err E_TP_CID_LEN 0 /\
+  unmarshal Client false (enc_params [(TP_ID_imd, vappend 9)]) = Err E_TP_MISSING_ISCID 0 /\
+  unmarshal Server false (enc_params [(TP_ID_iscid, [1])]) = Err E_TP_MISSING_ODCID 0.
+Proof. exact ex_range_rejected. Qed.
+Print Assumptions C08_tparams_reject_example.
+(** Claim (c) for transport parameters (possible since the repairs of max_idle_timeout / min_ack_delay):
+    everything Unmarshal accepts from a byte string is a well-formed value; Marshal's encoding of it
+    (whatever the 18 random bytes of the greased parameter) is accepted again and yields the same
+    value — parse -> Marshal -> parse is a fixpoint — except that a saturated max_idle_timeout
+    (2^63-1 ns) comes back cut to whole milliseconds. *)
+From V Require Import Wire.TParamsReencode.
+
+Theorem C08_tparams_parsed_wf : forall pers b p,
+  bytes b -> unmarshal pers false b = Ok p ->
+  tp_wf p /\ (tp_mit p <> maxInt64 -> tp_norm pers p = p).
+Proof. exact unmarshal_wf. Qed.
+Print Assumptions C08_tparams_parsed_wf.
+
+Theorem C08_tparams_reencode : forall pers rnd b p,
+  bytes b -> length rnd = 18%nat -> Forall is_byte rnd ->
+  unmarshal pers false b = Ok p ->
+  unmarshal pers false (marshal pers rnd p) = Ok (tp_norm pers p) /\
+  (tp_mit p <> maxInt64 -> unmarshal pers false (marshal pers rnd p) = Ok p).
+Proof. exact tparams_reencode. Qed.
+Print Assumptions C08_tparams_reencode.
+
+Example C08_tparams_reencode_nonvacuous :
+  bytes (enc_params ex_ps_server) /\
+  (exists p, unmarshal Server false (enc_params ex_ps_server) = Ok p /\ tp_mit p <> maxInt64) /\
+  (* regressions of the three repaired findings: an explicit 0 means "none", huge values saturate / are refused *)
+  (exists p, unmarshal Server false (enc_params (ex_ps_server ++ [(TP_ID_mit, vappend 0)])) = Ok p /\ tp_mit p = 0) /\
+  (exists p, unmarshal Server false (enc_params (ex_ps_server ++ [(TP_ID_mit, vappend (2 ^ 62 - 2))])) = Ok p /\ tp_mit p = maxInt64) /\
+  is_err (unmarshal Server false (enc_params (ex_ps_server ++ [(TP_ID_minad, vappend (2 ^ 61))]))).
+Proof.
+  split; [vm_compute; repeat constructor; discriminate|].
+  split; [eexists; split; [vm_compute; reflexivity | vm_compute; discriminate]|].
+  split; [eexists; split; vm_compute; reflexivity|].
+  split; [eexists; split; vm_compute; reflexivity|].
+  vm_compute. exact I.
+Qed.
+Print Assumptions C08_tparams_reencode_nonvacuous.
+
+(* ==== end tparams ==== *)
+(* ==== headers ==== *)
+(** Packet headers (coq/Wire/Headers.v mirrors internal/wire/header.go, extended_header.go,
+    short_header.go, version_negotiation.go).  [append_ext e v] is ExtendedHeader.Append with the
+    version argument v, [parse_header] is parseHeader (what ParsePacket runs), [parse_extended] is
+    Header.ParseExtended; results carry the error class (0 = nil). *)
+From V Require Import Lib.Hex Wire.Headers Wire.HeadersProofs.
+
+(** Initial / Handshake / 0-RTT headers of version 1 and 2: whatever follows the header, parseHeader
+    returns the fields Append was given (the token only for Initial), reports |Append| minus the packet
+    number bytes as parsed, and ParseExtended recovers the packet number length and the packet number
+    modulo 2^(8*pnLen), reports exactly |Append| bytes, and finds the reserved bits zero. *)
+Theorem C08_longhdr_roundtrip : forall e v payload,
+  hVersion (eHdr e) = v -> (v = H_Version1 \/ v = H_Version2) ->
+  (hType (eHdr e) = H_PacketTypeInitial \/ hType (eHdr e) = H_PacketTypeHandshake \/ hType (eHdr e) = H_PacketType0RTT) ->
+  zlen (hDst (eHdr e)) <= W_MaxConnIDLen -> zlen (hSrc (eHdr e)) <= W_MaxConnIDLen ->
+  0 <= hLength (eHdr e) <= maxVarInt2 -> 1 <= ePnLen e <= 4 -> zlen (hToken (eHdr e)) <= maxVarInt8 ->
+  exists enc, append_ext e v = (0, enc) /\
+    let fb := 192 + 16 * type_code v (hType (eHdr e)) + (ePnLen e - 1) in
+    let h' := mkHeader fb (hType (eHdr e)) v (hSrc (eHdr e)) (hDst (eHdr e)) (hLength (eHdr e))
+                (if hType (eHdr e) =? H_PacketTypeInitial then hToken (eHdr e) else []) (zlen enc - ePnLen e) in
+    parse_header (enc ++ payload) = Some (h', 0) /\
+    parse_extended h' (enc ++ payload) = (0, Some (mkExt h' fb (ePnLen e) (ePn e mod 2 ^ (8 * ePnLen e)) (zlen enc))).
+Proof. exact longhdr_roundtrip_full. Qed.
+Print Assumptions C08_longhdr_roundtrip.
+
+Theorem C08_longhdr_length : forall e v,
+  hVersion (eHdr e) = v -> (v = H_Version1 \/ v = H_Version2) ->
+  (hType (eHdr e) = H_PacketTypeInitial \/ hType (eHdr e) = H_PacketTypeHandshake \/ hType (eHdr e) = H_PacketType0RTT) ->
+  zlen (hDst (eHdr e)) <= W_MaxConnIDLen -> zlen (hSrc (eHdr e)) <= W_MaxConnIDLen ->
+  0 <= hLength (eHdr e) <= maxVarInt2 -> 1 <= ePnLen e <= 4 -> zlen (hToken (eHdr e)) <= maxVarInt8 ->
+  exists enc, append_ext e v = (0, enc) /\ zlen enc = get_length e.
+Proof. exact longhdr_length_full. Qed.
+Print Assumptions C08_longhdr_length.
+
+(** Retry (Append writes no integrity tag): with any 16 bytes behind it the header parses back,
+    the token being everything but those 16 bytes; the whole packet is reported as parsed. *)
+Theorem C08_retry_roundtrip : forall e v tag,
+  hVersion (eHdr e) = v -> (v = H_Version1 \/ v = H_Version2) -> hType (eHdr e) = H_PacketTypeRetry ->
+  zlen (hDst (eHdr e)) <= W_MaxConnIDLen -> zlen (hSrc (eHdr e)) <= W_MaxConnIDLen ->
+  0 < zlen (hToken (eHdr e)) -> zlen tag = 16 ->
+  exists enc, append_ext e v = (0, enc) /\
+    parse_header (enc ++ tag)
+    = Some (mkHeader (192 + 16 * type_code v H_PacketTypeRetry) H_PacketTypeRetry v (hSrc (eHdr e)) (hDst (eHdr e)) 0
+                     (hToken (eHdr e)) (zlen enc + 16), 0).
+Proof. exact retry_roundtrip. Qed.
+Print Assumptions C08_retry_roundtrip.
+
+(** Short header: round trip, predicted length, exact consumed length. *)
+Theorem C08_shorthdr_roundtrip : forall cid pn pnLen kp payload,
+  1 <= pnLen <= 4 -> (kp = H_KeyPhaseZero \/ kp = H_KeyPhaseOne) ->
+  exists enc, append_short cid pn pnLen kp = (0, enc) /\
+    zlen enc = short_header_len cid pnLen /\
+    parse_short (enc ++ payload) (zlen cid) = (0, (zlen enc, pn mod 2 ^ (8 * pnLen), pnLen, kp)).
+Proof. exact shorthdr_roundtrip. Qed.
+Print Assumptions C08_shorthdr_roundtrip.
+
+(** Version Negotiation: every composed packet (any random first byte, connection IDs up to 255 bytes,
+    non-empty list of 32-bit versions) parses back to the same connection IDs and version list. *)
+Theorem C08_vneg_roundtrip : forall rnd dst src gv,
+  zlen dst <= 255 -> zlen src <= 255 -> gv <> [] -> Forall (fun v => 0 <= v < 2 ^ 32) gv ->
+  parse_vneg (compose_vneg rnd dst src gv) = (0, dst, src, gv).
+Proof. exact vneg_roundtrip. Qed.
+Print Assumptions C08_vneg_roundtrip.
+
+(** ... in particular with the list GetGreasedVersions builds, wherever the reserved version lands. *)
+Theorem C08_vneg_greased_roundtrip : forall rnd dst src pos rv versions,
+  zlen dst <= 255 -> zlen src <= 255 -> 0 <= rv < 2 ^ 32 -> Forall (fun v => 0 <= v < 2 ^ 32) versions ->
+  parse_vneg (compose_vneg rnd dst src (greased pos rv versions)) = (0, dst, src, greased pos rv versions).
+Proof. exact vneg_greased_roundtrip. Qed.
+Print Assumptions C08_vneg_greased_roundtrip.
+
+(** ParseConnectionID agrees with the full parsers on the destination connection ID. *)
+Theorem C08_parse_connid_long : forall b h e k,
+  parse_header b = Some (h, e) -> (e = 0 \/ e = E_Unsupported) -> is_long (hd 0 b) = true ->
+  parse_connection_id b k = (0, hDst h).
+Proof. exact connid_long. Qed.
+Print Assumptions C08_parse_connid_long.
+
+Theorem C08_parse_connid_short : forall data k c l pn pnLen kp,
+  parse_short data k = (c, (l, pn, pnLen, kp)) -> (c = 0 \/ c = E_Reserved) -> 0 <= k <= W_MaxConnIDLen ->
+  parse_connection_id data k = (0, zfirstn k (tl data)).
+Proof. exact connid_short. Qed.
+Print Assumptions C08_parse_connid_short.
+
+(** Connection IDs longer than 20 bytes are rejected in long headers: an accepted header (nil error or
+    unsupported version) has both connection IDs within the limit, and a destination connection ID
+    length byte above 20 makes parseHeader, ParsePacket and ParseConnectionID fail. *)
+Theorem C08_reject_hdr_cid_len : forall b h e,
+  parse_header b = Some (h, e) -> (e = 0 \/ e = E_Unsupported) ->
+  zlen (hDst h) <= 20 /\ zlen (hSrc h) <= 20.
+Proof. exact accepted_cid_lens. Qed.
+Print Assumptions C08_reject_hdr_cid_len.
+
+Theorem C08_reject_hdr_cid_len_dst : forall b k,
+  6 <= zlen b -> is_long (hd 0 b) = true -> nth 5 b 0 > 20 ->
+  (exists h e, parse_header b = Some (h, e) /\ (e = E_NotQUIC \/ e = E_CIDLen)) /\
+  (exists pcls, parse_packet b = (pcls, None, [], []) /\ (pcls = E_NotQUIC \/ pcls = E_CIDLen)) /\
+  parse_connection_id b k = (E_CIDLen, []).
+Proof. exact reject_dst_cid_len. Qed.
+Print Assumptions C08_reject_hdr_cid_len_dst.
+
+(** Consumed lengths never exceed the input; ParsePacket cuts the input at ParsedLen + Length. *)
+Theorem C08_longhdr_consumed : forall b h e,
+  parse_header b = Some (h, e) -> (e = 0 \/ e = E_Unsupported) -> 1 <= hParsedLen h <= zlen b.
+Proof. exact parse_header_consumed. Qed.
+Print Assumptions C08_longhdr_consumed.
+
+Theorem C08_parse_packet_consumed : forall b h pkt rest,
+  parse_packet b = (0, Some h, pkt, rest) ->
+  parse_header b = Some (h, 0) /\ pkt ++ rest = b /\
+  hParsedLen h + hLength h <= zlen b /\ (0 <= hLength h -> zlen pkt = hParsedLen h + hLength h).
+Proof. exact parse_packet_consumed. Qed.
+Print Assumptions C08_parse_packet_consumed.
+
+Theorem C08_exthdr_consumed : forall h data c e,
+  parse_extended h data = (c, Some e) -> 0 <= hParsedLen h ->
+  (c = 0 \/ c = E_Reserved) /\ eHdr e = h /\ 1 <= ePnLen e <= 4 /\
+  eParsedLen e = hParsedLen h + ePnLen e /\ eParsedLen e <= zlen data.
+Proof. exact parse_extended_consumed. Qed.
+Print Assumptions C08_exthdr_consumed.
+
+Theorem C08_shorthdr_consumed : forall data k c l pn pnLen kp,
+  parse_short data k = (c, (l, pn, pnLen, kp)) -> (c = 0 \/ c = E_Reserved) ->
+  l = 1 + k + pnLen /\ 1 <= pnLen <= 4 /\ l <= zlen data /\ (kp = H_KeyPhaseZero \/ kp = H_KeyPhaseOne).
+Proof. exact parse_short_consumed. Qed.
+Print Assumptions C08_shorthdr_consumed.
+
+(** parse -> Append -> parse is a fixpoint: a long header with a packet number parsed from ANY byte string
+    (Length small enough for the 2-byte field Append writes; reserved bits may be set) is written by Append
+    in GetLength bytes and parses back to the same fields, packet number and packet number length. *)
+Theorem C08_longhdr_reencode : forall b h c x payload,
+  Forall (fun y => 0 <= y < 256) b -> zlen b <= maxVarInt8 ->
+  parse_header b = Some (h, 0) ->
+  (hType h = H_PacketTypeInitial \/ hType h = H_PacketTypeHandshake \/ hType h = H_PacketType0RTT) ->
+  hLength h <= maxVarInt2 ->
+  parse_extended h b = (c, Some x) ->
+  exists enc, append_ext x (hVersion h) = (0, enc) /\ zlen enc = get_length x /\
+    let fb := 192 + 16 * type_code (hVersion h) (hType (eHdr x)) + (ePnLen x - 1) in
+    let h2 := mkHeader fb (hType h) (hVersion h) (hSrc h) (hDst h) (hLength h) (hToken h) (zlen enc - ePnLen x) in
+    parse_header (enc ++ payload) = Some (h2, 0) /\
+    parse_extended h2 (enc ++ payload) = (0, Some (mkExt h2 fb (ePnLen x) (ePn x) (zlen enc))).
+Proof. exact longhdr_reencode. Qed.
+Print Assumptions C08_longhdr_reencode.
+
+(** Is0RTTPacket (used before the header is parsed) agrees with the parsed packet type. *)
+Theorem C08_is0rtt_agrees : forall b h,
+  parse_header b = Some (h, 0) -> is_long (hd 0 b) = true -> is_0rtt b = (hType h =? H_PacketType0RTT).
+Proof. exact is_0rtt_agrees. Qed.
+Print Assumptions C08_is0rtt_agrees.
+
+(** Non-vacuity: a version 2 Initial with a token, 3-byte packet number and Length 16383 satisfies the
+    hypotheses of the round trip, and the model computes on it. *)
+Example C08_longhdr_nonvacuous :
+  let e := mkExt (mkHeader 0 H_PacketTypeInitial H_Version2 [1; 2; 3] [4; 5; 6; 7; 8; 9; 10; 11] 16383 [170; 187] 0) 0 3 16909060 0 in
+  (hVersion (eHdr e) = H_Version2 /\ zlen (hDst (eHdr e)) <= W_MaxConnIDLen /\ 0 <= hLength (eHdr e) <= maxVarInt2) /\
+  append_ext e H_Version2
+  = (0, [210; 107; 51; 67; 207; 8; 4; 5; 6; 7; 8; 9; 10; 11; 3; 1; 2; 3; 2; 170; 187; 127; 255; 2; 3; 4]) /\
+  get_length e = 26 /\
+  (let '(_, h, pkt, rest) := parse_packet (snd (append_ext e H_Version2) ++ [9; 9; 9]) in h) = None /\
+  parse_header (snd (append_ext e H_Version2) ++ [9])
+  = Some (mkHeader 210 H_PacketTypeInitial H_Version2 [1; 2; 3] [4; 5; 6; 7; 8; 9; 10; 11] 16383 [170; 187] 23, 0).
+Proof. vm_compute. repeat split; congruence. Qed.
+Print Assumptions C08_longhdr_nonvacuous.
+
+(** ... and a byte string satisfying the hypotheses of the re-encoding theorem (Handshake, version 1,
+    1-byte Length field, reserved bits set). *)
+Example C08_reencode_nonvacuous :
+  let b := [236; 0; 0; 0; 1; 1; 7; 0; 5; 1; 2; 3; 4; 5] in
+  match parse_header b with
+  | Some (h, 0) =>
+    hType h = H_PacketTypeHandshake /\ hLength h = 5 /\
+    match parse_extended h b with
+    | (c, Some x) => c = E_Reserved /\ ePn x = 1 /\ ePnLen x = 1 /\
+                     append_ext x (hVersion h) = (0, [224; 0; 0; 0; 1; 1; 7; 0; 64; 5; 1])
+    | _ => False
+    end
+  | _ => False
+  end.
+Proof. vm_compute. repeat split; reflexivity. Qed.
+Print Assumptions C08_reencode_nonvacuous.
+
+Example C08_vneg_nonvacuous :
+  parse_vneg (compose_vneg 37 [1; 2] [3] (greased 1 439041101 [1; 1798521807]))
+  = (0, [1; 2], [3], [1; 439041101; 1798521807]) /\
+  parse_connection_id [192; 0; 0; 0; 1; 21] 0 = (E_CIDLen, []).
+Proof. vm_compute. split; reflexivity. Qed.
+Print Assumptions C08_vneg_nonvacuous.
+(* ==== end headers ==== *)
